@@ -117,9 +117,27 @@ const (
 	c04Vote
 	c04CallT  // a call node with T set travels under this tag
 	c04Update // set-up only: ContractManagement.update(nef, manifest) of the executing contract
+	c04Mut     // read key k, derive a Buffer from the value by instruction V, mutate it in place, then NotifyVal k
+	c04CallMut // read key k, pass the value to contract C which derives a Buffer from it and mutates it; then notify what the caller still holds
+	c04MutArg  // callee side of callmut (built at run time)
 )
 
-var c04OpNames = []string{"skip", "put", "del", "notify", "notifyval", "notifyfee", "move", "setfee", "seq", "call", "try", "throw", "abort", "moveneo", "vote", "callt", "update"}
+// ways to derive a Buffer from a ByteString (mut / callmut: field V)
+const (
+	c04HowConvert = iota
+	c04HowCatR    // v ++ ""
+	c04HowCatL    // "" ++ v
+	c04HowSubstr  // SUBSTR 0 len
+	c04HowLeft    // LEFT len
+	c04HowRight   // RIGHT len
+	c04HowMemcpy  // NEWBUFFER len, MEMCPY
+	c04HowZero    // LEFT 0, RIGHT 0, SUBSTR 0 0: boundary, nothing to mutate
+	c04HowFind    // value from Storage.Find (values only) -> Iterator.Value, then CONVERT   (mut only)
+	c04HowFindR   // ... then RIGHT len                                                      (mut only)
+	c04NHow
+)
+
+var c04OpNames = []string{"skip", "put", "del", "notify", "notifyval", "notifyfee", "move", "setfee", "seq", "call", "try", "throw", "abort", "moveneo", "vote", "callt", "update", "mut", "callmut", "mutarg"}
 
 // c04Node is one node of a call tree. JSON form is what replay files carry.
 //
@@ -219,8 +237,12 @@ func (n *c04Node) coq() string {
 			return fmt.Sprintf("(CallV true %d %d %s)", n.C, n.Flags, n.Body.coq())
 		}
 		return fmt.Sprintf("(Call %d %d %s)", n.C, n.Flags, n.Body.coq())
-	case c04Update:
+	case c04Update, c04MutArg:
 		return "Abort"
+	case c04Mut: // values are immutable in the model: reading and scribbling on a copy is NotifyVal
+		return fmt.Sprintf("(NotifyVal %d)", n.K)
+	case c04CallMut:
+		return fmt.Sprintf("(Seq (Call %d 15 Skip) (NotifyVal %d))", n.C, n.K)
 	case c04Try:
 		return fmt.Sprintf("(Try %s %s %s)", n.Body.coq(), opt(n.Catch), opt(n.Fin))
 	case c04Throw:
@@ -294,6 +316,19 @@ func (e *c04Env) pushItem(a *c04Asm, n *c04Node) {
 			e.pushItem(a, n.Ops[i])
 		}
 		cnt = 1 + len(n.Ops)
+	case c04Mut:
+		a.pushInt(int64(n.V))
+		a.pushBytes(c04Key(n.K))
+		cnt = 3
+	case c04CallMut:
+		a.pushInt(int64(n.V))
+		if n.C < len(e.contracts) {
+			a.pushBytes(e.contracts[n.C].BytesBE())
+		} else {
+			a.pushBytes(make([]byte, 20))
+		}
+		a.pushBytes(c04Key(n.K))
+		cnt = 4
 	case c04Update:
 		a.pushBytes(n.Raw[1])
 		a.pushBytes(n.Raw[0])
@@ -662,6 +697,139 @@ func c04Interpreter(gas, policy, neo, mgmt util.Uint160) (script []byte, runOff,
 	a.pushStr("update")
 	a.pushBytes(mgmt.BytesBE())
 	a.syscall(interopnames.SystemContractCall)
+	a.jmp(opcode.JMPL, "ret")
+
+	// ---- in-place mutation of Buffers derived from stored / passed byte strings ----
+	// derive: [v] -> [buf] by the instruction numbered on top of the stack: [v, how] -> [buf]
+	derive := func(prefix string, hows int) {
+		for h := 0; h < hows; h++ {
+			a.op(opcode.DUP)
+			a.pushInt(int64(h))
+			a.op(opcode.NUMEQUAL)
+			a.jmp(opcode.JMPIFL, fmt.Sprintf("%s_how_%d", prefix, h))
+		}
+		a.op(opcode.ABORT)
+		done := prefix + "_derived"
+		lbl := func(h int) { a.label(fmt.Sprintf("%s_how_%d", prefix, h)); a.op(opcode.DROP) }
+		lbl(c04HowConvert)
+		a.op(opcode.CONVERT)
+		a.raw(0x30)
+		a.jmp(opcode.JMPL, done)
+		lbl(c04HowCatR)
+		a.pushBytes([]byte{})
+		a.op(opcode.CAT)
+		a.jmp(opcode.JMPL, done)
+		lbl(c04HowCatL)
+		a.pushBytes([]byte{})
+		a.op(opcode.SWAP, opcode.CAT)
+		a.jmp(opcode.JMPL, done)
+		lbl(c04HowSubstr)
+		a.op(opcode.PUSH0, opcode.OVER, opcode.SIZE, opcode.SUBSTR)
+		a.jmp(opcode.JMPL, done)
+		lbl(c04HowLeft)
+		a.op(opcode.DUP, opcode.SIZE, opcode.LEFT)
+		a.jmp(opcode.JMPL, done)
+		lbl(c04HowRight)
+		a.op(opcode.DUP, opcode.SIZE, opcode.RIGHT)
+		a.jmp(opcode.JMPL, done)
+		lbl(c04HowMemcpy)
+		a.op(opcode.DUP, opcode.SIZE, opcode.NEWBUFFER, opcode.STLOC0)
+		a.op(opcode.LDLOC0, opcode.SWAP, opcode.PUSH0, opcode.SWAP, opcode.DUP, opcode.SIZE, opcode.PUSH0, opcode.SWAP, opcode.MEMCPY)
+		a.op(opcode.LDLOC0)
+		a.jmp(opcode.JMPL, done)
+		lbl(c04HowZero)
+		a.op(opcode.DUP, opcode.PUSH0, opcode.LEFT, opcode.DROP)
+		a.op(opcode.DUP, opcode.PUSH0, opcode.RIGHT, opcode.DROP)
+		a.op(opcode.PUSH0, opcode.PUSH0, opcode.SUBSTR)
+		a.jmp(opcode.JMPL, done)
+		if hows > c04HowFind {
+			// the value again, this time through an iterator: Storage.Find(ctx, key, ValuesOnly) -> Next -> Value
+			for _, h := range []int{c04HowFind, c04HowFindR} {
+				lbl(h)
+				a.op(opcode.DROP)
+				a.pushInt(4)
+				item(1)
+				a.syscall(interopnames.SystemStorageGetContext)
+				a.syscall(interopnames.SystemStorageFind)
+				a.op(opcode.DUP)
+				a.syscall(interopnames.SystemIteratorNext)
+				a.op(opcode.ASSERT)
+				a.syscall(interopnames.SystemIteratorValue)
+				if h == c04HowFind {
+					a.op(opcode.CONVERT)
+					a.raw(0x30)
+				} else {
+					a.op(opcode.DUP, opcode.SIZE, opcode.RIGHT)
+				}
+				a.jmp(opcode.JMPL, done)
+			}
+		}
+		a.label(done)
+		// scribble: every byte position 0 := 0xEE, then reverse (no-op on one byte), when there is a byte
+		a.op(opcode.DUP, opcode.SIZE, opcode.PUSH0, opcode.NUMEQUAL)
+		a.jmp(opcode.JMPIFL, prefix+"_nomut")
+		a.op(opcode.DUP, opcode.PUSH0)
+		a.pushInt(0xEE)
+		a.op(opcode.SETITEM)
+		a.op(opcode.DUP, opcode.REVERSEITEMS)
+		a.label(prefix + "_nomut")
+		a.op(opcode.DROP)
+	}
+
+	a.label("op_mut") // [mut, k, how]
+	a.op(opcode.DROP)
+	item(1)
+	a.syscall(interopnames.SystemStorageGetContext)
+	a.syscall(interopnames.SystemStorageGet)
+	a.op(opcode.DUP, opcode.ISNULL)
+	a.jmp(opcode.JMPIFL, "mut_read")
+	item(2)
+	derive("mut", c04NHow)
+	a.label("mut_read")
+	a.op(opcode.CLEAR)
+	item(1)
+	a.syscall(interopnames.SystemStorageGetContext)
+	a.syscall(interopnames.SystemStorageGet)
+	item(1)
+	a.pushInt(2)
+	a.op(opcode.PACK)
+	a.pushStr("V")
+	a.syscall(interopnames.SystemRuntimeNotify)
+	a.jmp(opcode.JMPL, "ret")
+
+	a.label("op_callmut") // [callmut, k, callee hash, how]: the callee gets [mutarg, how, v]
+	a.op(opcode.DROP)
+	item(1)
+	a.syscall(interopnames.SystemStorageGetContext)
+	a.syscall(interopnames.SystemStorageGet)
+	a.op(opcode.STLOC0)
+	a.op(opcode.LDLOC0)
+	item(3)
+	a.pushInt(int64(c04MutArg))
+	a.pushInt(3)
+	a.op(opcode.PACK)
+	a.pushInt(1)
+	a.op(opcode.PACK)
+	a.pushInt(15)
+	a.pushStr("run")
+	item(2)
+	a.syscall(interopnames.SystemContractCall)
+	a.op(opcode.CLEAR)
+	a.op(opcode.LDLOC0) // what the caller still holds
+	item(1)
+	a.pushInt(2)
+	a.op(opcode.PACK)
+	a.pushStr("V")
+	a.syscall(interopnames.SystemRuntimeNotify)
+	a.jmp(opcode.JMPL, "ret")
+
+	a.label("op_mutarg") // [mutarg, how, v]
+	a.op(opcode.DROP)
+	item(2)
+	a.op(opcode.DUP, opcode.ISNULL)
+	a.jmp(opcode.JMPIFL, "ret")
+	item(1)
+	derive("arg", c04HowFind)
 	a.jmp(opcode.JMPL, "ret")
 
 	a.label("op_throw")
